@@ -238,7 +238,9 @@ def wrap_verbose(func):
         # Call function itself
         func_output = func(*args, **kwargs)
 
-        if ('verbose' in kwargs) and (kwargs['verbose'] is not None):
+        if ('verbose' in kwargs) and (kwargs['verbose'] is not None) and \
+           (current_level is not None):
+            # current_level is None if the logger has not been set up
             set_level(level=logging._levelToName[current_level])
 
         return func_output
